@@ -684,7 +684,12 @@ def run_iface(ctx, c, f, ref, rpos, cpos):
                 expected_cols.append(array_toks(arr.astype(target)) if j in cp else ref.cols[j])
         except Exception:
             raise Skip()
-        res = f.astype[pck](target)
+        if (rng_r // 11) % 3 == 0 and len(set(tok(x) for x in f.columns)) == m:
+            # the mapping form, with dtype OBJECTS as values: only the named labels are retyped
+            ctx.count('astype_mapping_form')
+            res = f.astype({list(f.columns)[j]: np.dtype(target) for j in cp})
+        else:
+            res = f.astype[pck](target)
         dts = [None if j in cp else ref.dtypes[j] for j in range(m)]
         what = compare_frame(res, ref, expected_cols, exp_dtypes=dts)
         if what is None and target not in ('str',) and not target.startswith(('<U', '|S', 'datetime', 'timedelta', '<M', '<m')):
@@ -718,6 +723,9 @@ def run_iface(ctx, c, f, ref, rpos, cpos):
         lab = untok(ref.columns[j])
         ser = sf.Series([4000 + i for i in range(n)], index=f.index, name='__ins__')
         before_ = (rng_r // 7) % 2 == 0
+        if (rng_r // 14) % 3 == 0:
+            lab = sf.ILoc[j - m]            # the same column counted from the end
+            ctx.count('insert_negative_position')
         res = f.insert_before(lab, ser) if before_ else f.insert_after(lab, ser)
         at = j if before_ else j + 1
         cols = ref.cols[:at] + [[f'i:{4000 + i}' for i in range(n)]] + ref.cols[at:]
